@@ -3,11 +3,12 @@
 import json
 import math
 import os
+import pickle
 import subprocess
 import threading
 
 from .. import common, gen, lin, probe
-from ..sched import Recorder, Sched
+from ..sched import LateHandles, Recorder, Sched
 
 PROP = 'C20'
 LEVEL = 'exploration'
@@ -53,11 +54,11 @@ def averager_schedule(dc, sc, res, rng, label):
     dkw = {'disk': dc.JSONDisk} if json_disk else {}
     res.count('averager_schedules_on_jsondisk' if json_disk else 'averager_schedules_on_disk')
     if topo == 'fanout':
-        base = dc.FanoutCache(d, shards=2, timeout=0, **dkw)
-        caches = [base] * n
+        base = dc.FanoutCache(d, shards=rng.choice([2, 3, 5]), timeout=0, **dkw)
+        caches = [base if rng.random() < 0.6 else pickle.loads(pickle.dumps(base)) for _ in range(n)]
     else:
         base = dc.Cache(d, timeout=0, **dkw)
-        caches = [base if topo == 'shared' else dc.Cache(d, timeout=0, **dkw) for _ in range(n)]
+        caches = LateHandles(rng, n, lambda: dc.Cache(d, timeout=0, **dkw), shared=base if topo == 'shared' else None)
     sch = Sched(rng, clock, strategy=rng.choice(['random', 'preempt', 'random', 'ops']),
                 preempt_points={rng.randrange(0, 150) for _ in range(3)})
     rec = Recorder(sch)
@@ -112,7 +113,7 @@ def averager_schedule(dc, sc, res, rng, label):
                                                                                 'result')} for o in ops]))
     finally:
         probe.set_controller(None)
-        for c in list({id(x): x for x in caches + [base]}.values()):
+        for c in list({id(x): x for x in (caches.all() if hasattr(caches, 'all') else caches) + [base]}.values()):
             try:
                 c.close()
             except Exception:      # noqa: BLE001
